@@ -44,6 +44,18 @@ def shapes():
         "overload": lambda o2: [dict({"decl": "void ftwo(int a)"}, **o2), {"decl": "void ftwo(double b)"},
                                 {"decl": "int fone(int a)"}],
         "string": lambda o2: [{"decl": "void fone(const std::string & s)"}, dict({"decl": "void ftwo(double b)"}, **o2)],
+        # generated variants of the overridden declaration must keep its flags: a method returning *this
+        # (return_this makes a clone returning void), a template instantiation, a fortran_generic entry
+        "return_this": lambda o2: [{"decl": "class Cone", "declarations": [
+                                       {"decl": "Cone()"}, dict({"decl": "Cone * ftwo(double b)", "return_this": True}, **o2)]},
+                                   {"decl": "int fone(int a)"}],
+        "template": lambda o2: [{"decl": "int fone(int a)"},
+                                dict({"decl": "template<typename T> void ftwo(T b)",
+                                      "cxx_template": [{"instantiation": "<int>"}, {"instantiation": "<double>"}]}, **o2)],
+        "generic": lambda o2: [{"decl": "int fone(int a)"},
+                               dict({"decl": "void ftwo(double b)",
+                                     "fortran_generic": [{"decl": "(float b)", "function_suffix": "_float"},
+                                                         {"decl": "(double b)", "function_suffix": "_double"}]}, **o2)],
     }
 
 
